@@ -438,6 +438,7 @@ func BuildFrom(query *Query, tableExpr *sqlparser.TableExpr) error {
 }
 
 func BuildJoin(query *Query, joinExpr *sqlparser.JoinTableExpr) error {
+	inherited := len(query.postProcessors)
 	left := CopyQuery(query)
 	err := BuildFrom(left, &joinExpr.LeftExpr)
 	if err != nil {
@@ -447,6 +448,17 @@ func BuildJoin(query *Query, joinExpr *sqlparser.JoinTableExpr) error {
 	err = BuildFrom(right, &joinExpr.RightExpr)
 	if err != nil {
 		return err
+	}
+	// a side that is a derived table leaves pending work with its query object (ASYNC calls to wait
+	// for, post-processors that put their results in place): the joining query takes it over
+	for _, side := range []*Query{left, right} {
+		side := side
+		query.postProcessors = append(query.postProcessors, side.postProcessors[inherited:]...)
+		query.wg.Add(1)
+		go func() {
+			side.wg.Wait()
+			query.wg.Done()
+		}()
 	}
 	if joinExpr.Condition == nil {
 		return UNSUPPORTED_CASE.Extend(fmt.Sprintf("%s needs an ON or USING condition", joinExpr.Join.ToString()))
